@@ -389,12 +389,44 @@ impl Model for C06Model {
                 if let Some(m) = c.as_object_mut() {
                     m.remove("queue");
                 }
-                serde_json::json!({"ok": o.ok, "state": c}).to_string()
+                // what the RRDP notification offers: the delta serials
+                // relative to the current serial (the retention decisions
+                // depend on state that a snapshot has to carry)
+                let notif = std::fs::read_to_string("repo/rrdp/notification.xml").unwrap_or_default();
+                let attr = |tag: &str, text: &str| -> Vec<i64> {
+                    let mut out = Vec::new();
+                    let mut rest = text;
+                    while let Some(i) = rest.find(tag) {
+                        let tail = &rest[i + tag.len()..];
+                        if let Some(j) = tail.find("serial=\"") {
+                            let t2 = &tail[j + 8..];
+                            if let Some(k) = t2.find('"') {
+                                if let Ok(n) = t2[..k].parse::<i64>() {
+                                    out.push(n);
+                                }
+                            }
+                        }
+                        rest = tail;
+                    }
+                    out
+                };
+                let cur = attr("<notification", &notif).first().copied().unwrap_or(0);
+                let mut deltas: Vec<i64> = attr("<delta", &notif).into_iter().map(|n| cur - n).collect();
+                deltas.sort();
+                serde_json::json!({"ok": o.ok, "fatal": o.fatal, "state": c, "rrdp_deltas_offered_back_from_current": deltas}).to_string()
             };
             for probe in probes {
                 let p1 = probe.clone();
+                // (with the tasks the operation triggers: the repository
+                // synchronisation and the RRDP update are part of the step)
                 let a = what_if(w, move |w| {
-                    let o = w.apply(&p1);
+                    // the running instance does the work a start-up queues
+                    // as well (so that both sides make the same updates and
+                    // differ only in where their state comes from)
+                    let _ = w.krill.tasks().reschedule_tasks_at_startup();
+                    let _ = w.krill.tasks().schedule(krill::server::mq::Task::QueueStartTasks, krill::server::mq::now());
+                    let _ = w.pump();
+                    let o = w.apply_pumped(&p1);
                     vec![("obs".into(), project(w, &o))]
                 });
                 let p2 = probe.clone();
@@ -402,7 +434,8 @@ impl Model for C06Model {
                     if let Err(e) = w.restart() {
                         return vec![("restart-failed".into(), e.to_string())];
                     }
-                    let o = w.apply(&p2);
+                    let _ = w.pump();
+                    let o = w.apply_pumped(&p2);
                     vec![("obs".into(), project(w, &o))]
                 });
                 hdr.counters[12].fetch_add(1, Ordering::Relaxed);
